@@ -33,6 +33,25 @@ type c15Scenario struct {
 	Existing     int  // number of earlier complete results already at the outfile path (non-append: 0/1; append: runs before)
 	FinalDelayMs int  // extra delay before the input ends (moves the final write relative to the interim ticks)
 	StaleTmp     bool // a longer <outfile>.tmp (and .query.tmp) is left over from an earlier, killed run
+	OtherFS      bool // the outfile lives on another filesystem (/dev/shm) than the process's temporary directory and cwd
+}
+
+// c15Base returns the directory of a scenario's outfile. OtherFS scenarios get one on /dev/shm (a tmpfs, another
+// device than the scratch directory under /tmp, which stays the client's TMPDIR and HOME): anything that stages the
+// result elsewhere than beside the outfile cannot publish it with a rename there. ok=false: no such filesystem here.
+func c15Base(r *vlib.Run, sc c15Scenario) (dir string, cleanup func(), ok bool) {
+	if !sc.OtherFS {
+		return r.Dir("c15-" + sc.Name), func() {}, true
+	}
+	var a, b syscall.Stat_t
+	if syscall.Stat("/dev/shm", &a) != nil || syscall.Stat(r.Scratch, &b) != nil || a.Dev == b.Dev {
+		return "", func() {}, false
+	}
+	d, err := os.MkdirTemp("/dev/shm", "verif-c15-")
+	if err != nil {
+		return "", func() {}, false
+	}
+	return d, func() { os.RemoveAll(d) }, true
 }
 
 func c15Line(g int, v int) string {
@@ -91,7 +110,7 @@ func c15Run(r *vlib.Run, dir string, sc c15Scenario, gen int, points string, wat
 	}
 	cmd := exec.Command(argv[0], argv[1:]...)
 	cmd.Dir = dir
-	cmd.Env = append(vlib.BaseEnv(dir), "VERIF_TRACE="+trace)
+	cmd.Env = append(vlib.BaseEnv(dir), "VERIF_TRACE="+trace, "TMPDIR="+r.Scratch)
 	if points != "" {
 		cmd.Env = append(cmd.Env, "VERIF_POINTS="+points)
 	}
@@ -243,20 +262,22 @@ func c15(r *vlib.Run) int {
 		"runs. distinct = distinct (scenario, kill point); non-trivial = kill point at or after the first write to the outfile.")
 	r.Assume("a kill inside a single write(2) of a few bytes is not separately reachable; in append mode a torn last record is not judged")
 	scs := []c15Scenario{
-		{"final-only-3", 3, false, false, 0, 0, false},
-		{"final-only-1-over-existing", 1, false, false, 1, 0, false},
-		{"final-only-200", 200, false, false, 0, 0, false},
-		{"interim-3-over-existing", 3, false, true, 1, 0, false},
-		{"interim-200", 200, false, true, 0, 0, false},
-		{"append-first-3", 3, true, false, 0, 0, false},
-		{"append-second-3", 3, true, false, 1, 0, false},
-		{"append-third-interim-3", 3, true, true, 2, 0, false},
+		{"final-only-3", 3, false, false, 0, 0, false, false},
+		{"final-only-1-over-existing", 1, false, false, 1, 0, false, false},
+		{"final-only-200", 200, false, false, 0, 0, false, false},
+		{"interim-3-over-existing", 3, false, true, 1, 0, false, false},
+		{"interim-200", 200, false, true, 0, 0, false, false},
+		{"append-first-3", 3, true, false, 0, 0, false, false},
+		{"append-second-3", 3, true, false, 1, 0, false, false},
+		{"append-third-interim-3", 3, true, true, 2, 0, false, false},
 	}
+	scs = append(scs, c15Scenario{Name: "final-only-3-other-filesystem", Rows: 3, OtherFS: true},
+		c15Scenario{Name: "interim-3-over-existing-other-filesystem", Rows: 3, Interim: true, Existing: 1, OtherFS: true})
 	scs = append(scs, c15Scenario{Name: "final-only-3-stale-tmp", Rows: 3, StaleTmp: true},
 		c15Scenario{Name: "interim-3-over-existing-stale-tmp", Rows: 3, Interim: true, Existing: 1, StaleTmp: true})
 	if r.Thorough() {
-		scs = append(scs, c15Scenario{"interim-200-over-existing", 200, false, true, 1, 0, false}, c15Scenario{"append-second-200", 200, true, false, 1, 0, false},
-			c15Scenario{"final-only-3-over-existing", 3, false, false, 1, 0, false}, c15Scenario{"append-first-interim-1", 1, true, true, 0, 0, false})
+		scs = append(scs, c15Scenario{"interim-200-over-existing", 200, false, true, 1, 0, false, false}, c15Scenario{"append-second-200", 200, true, false, 1, 0, false, false},
+			c15Scenario{"final-only-3-over-existing", 3, false, false, 1, 0, false, false}, c15Scenario{"append-first-interim-1", 1, true, true, 0, 0, false, false})
 	}
 	maxPoints := r.N(40, 100000)
 	vlib.Parallel(len(scs), 8, func(si int) {
@@ -405,9 +426,19 @@ func c15Overlap(r *vlib.Run) {
 		delays = []int{0, 100, 200, 300, 400, 500, 600, 700, 800, 900}
 	}
 	header, newSet := c15Expected(rows, 0)
-	vlib.Parallel(len(delays), 4, func(i int) {
-		sc := c15Scenario{Name: fmt.Sprintf("overlap-%d", delays[i]), Rows: rows, Interim: true, FinalDelayMs: delays[i]}
-		dir := r.Dir("c15-" + sc.Name)
+	vlib.Parallel(len(delays)+1, 5, func(i int) {
+		var sc c15Scenario
+		if i == len(delays) {
+			sc = c15Scenario{Name: "overlap-other-filesystem", Rows: rows, Interim: true, FinalDelayMs: 300, OtherFS: true}
+		} else {
+			sc = c15Scenario{Name: fmt.Sprintf("overlap-%d", delays[i]), Rows: rows, Interim: true, FinalDelayMs: delays[i]}
+		}
+		dir, cleanup, ok := c15Base(r, sc)
+		if !ok {
+			r.Count("scenarios_skipped_no_other_filesystem", 1)
+			return
+		}
+		defer cleanup()
 		defer os.RemoveAll(dir)
 		out := filepath.Join(dir, "result.csv")
 		var bad int64
@@ -470,7 +501,15 @@ func c15Prepare(r *vlib.Run, dir string, sc c15Scenario) []byte {
 }
 
 func c15Scenario1(r *vlib.Run, sc c15Scenario, maxPoints int) {
-	base := r.Dir("c15-" + sc.Name)
+	base, cleanup, ok := c15Base(r, sc)
+	if !ok {
+		r.Count("scenarios_skipped_no_other_filesystem", 1)
+		return
+	}
+	defer cleanup()
+	if sc.OtherFS {
+		r.Count("scenarios_with_the_outfile_on_another_filesystem", 1)
+	}
 	gen := 0
 	header, newSet := c15Expected(sc.Rows, gen)
 	var oldSet map[string]int
